@@ -18,7 +18,10 @@ def regenerate(strict=True):
     for name in DRIVERS:
         try:
             mod = importlib.import_module(f"translator.{name}")
-        except ModuleNotFoundError:
+        except ModuleNotFoundError as e:
+            if strict:
+                raise
+            aborted.append((name, f"driver missing: {e}"))
             continue
         try:
             (getattr(mod, 'regenerate', None) or getattr(mod, 'generate'))(repo)
@@ -27,6 +30,37 @@ def regenerate(strict=True):
                 raise
             aborted.append((name, f"{type(e).__name__}: {e}"[:300]))
     return aborted
+
+
+def gen_file_of(name):
+    """the stem of the generated file a driver owns (Gen/<stem>.v)"""
+    try:
+        return Path(importlib.import_module(f"translator.{name}").OUT).stem
+    except Exception:  # noqa: BLE001
+        return "".join(w.capitalize() for w in name.split("_"))
+
+
+def gen_deps(prop_file):
+    """stems of the Gen/*.v files in the dependency cone of a property file (text scan of the Require lines, transitive)"""
+    import re
+    coq = Path(__file__).resolve().parent.parent / "coq"
+    seen, todo, gens = set(), [prop_file], set()
+    while todo:
+        f = todo.pop()
+        if f in seen:
+            continue
+        seen.add(f)
+        path = coq / f
+        if not path.exists():
+            continue
+        text = re.sub(r"\(\*.*?\*\)", " ", path.read_text(), flags=re.S)
+        for sent in re.findall(r"(?:From\s+SR\s+)?Require\s+(?:Import|Export)?\s*([^.]*(?:\.[A-Za-z_][^.]*)*)\.(?=\s)", text):
+            for m in re.findall(r"(?:SR\.)?((?:Base|Model|Proofs|Properties|Gen)\.[A-Za-z0-9_]+)", sent):
+                d, stem = m.split(".")
+                if d == "Gen":
+                    gens.add(stem)
+                todo.append(f"{d}/{stem}.v")
+    return gens
 
 
 if __name__ == "__main__":
